@@ -1926,10 +1926,16 @@ where
             Some(_) => unreachable!(),
         }
 
+        // a member name that occurs again is skipped: the first occurrence is the one `get` finds
+        let mut seen: Vec<*const PointerTreeNode> = Vec::new();
         loop {
             let key = self.parse_str(strbuf)?;
             self.parse_object_clo()?;
-            if let Some(val) = mkeys.get(key.deref()) {
+            let matched = mkeys
+                .get(key.deref())
+                .filter(|val| !seen.contains(&(*val as *const PointerTreeNode)));
+            if let Some(val) = matched {
+                seen.push(val as *const PointerTreeNode);
                 self.get_many_rec(val, out, strbuf, remain, false)?;
                 if *remain == 0 {
                     break;
@@ -1980,10 +1986,16 @@ where
             }
         }
 
+        // a member name that occurs again is skipped: the first occurrence is the one `get` finds
+        let mut seen: Vec<*const PointerTreeNode> = Vec::new();
         loop {
             let key = self.parse_str(strbuf)?;
             self.parse_object_clo()?;
-            if let Some(val) = mkeys.get(key.deref()) {
+            let matched = mkeys
+                .get(key.deref())
+                .filter(|val| !seen.contains(&(*val as *const PointerTreeNode)));
+            if let Some(val) = matched {
+                seen.push(val as *const PointerTreeNode);
                 // parse the child point tree
                 self.get_many_rec(val, out, strbuf, remain, true)?;
                 if *remain == 0 {
